@@ -172,6 +172,26 @@ def run(ctx):
             bad = [f"raised:{type(e).__name__}"]
         if bad:
             ctx.fail({"pair": [a, b]}, "lattice law(s) violated on the real objects: " + ", ".join(bad))
+    # the same laws when (one of) the elements went through copy / deepcopy: still the same elements (the lattice classes of
+    # the pinned tree cannot be pickled - kirin's lattice metaclass - so pickling is not part of this)
+    import copy as _copy
+    cloners = (("copy.copy", _copy.copy), ("copy.deepcopy", _copy.deepcopy), ("copy.deepcopy", _copy.deepcopy))
+    for k, (a, b) in enumerate(pairs[: (4000 if thorough else 700)]):
+        how, mk = cloners[k % 3]
+        oa, ob = to_obj(L, a), to_obj(L, b)
+        ctx.count("pairs_with_a_cloned_element")
+        try:
+            ca = mk(oa)
+            bad = [] if ca == oa and oa == ca else ["clone-equals-original"]      # (lattice elements are not hashable)
+            bad += laws(L, ca, ob) + laws(L, ob, ca)
+            if oa.is_subseteq(ob) != ca.is_subseteq(ob) or ob.is_subseteq(oa) != ob.is_subseteq(ca) or ca.join(ob) != oa.join(ob) \
+                    or ca.meet(ob) != oa.meet(ob):
+                bad.append("clone-behaves-like-original")
+        except Exception as e:  # noqa: BLE001
+            bad = [f"raised:{type(e).__name__}"]
+        if bad:
+            ctx.fail({"pair": [a, b], "first_element_cloned_with": how},
+                     f"lattice law(s) violated on the real objects when the first element is a {how} of itself: " + ", ".join(sorted(set(bad))))
     for a, b, c in triples:
         oa, ob, oc = to_obj(L, a), to_obj(L, b), to_obj(L, c)
         ctx.count("triples")
